@@ -8,7 +8,7 @@ All statements are about the transliterated model `Pyiga.Model.Relax` (CSR kerne
 matrix size, every stored row, every index list, every sweep count, every level count.
 -/
 import Pyiga.Proofs.Relax
--- import Pyiga.Proofs.RelaxMG
+import Pyiga.Proofs.RelaxMG
 
 namespace Pyiga.Props.C11
 open Pyiga.Relax Finset
@@ -141,5 +141,157 @@ example : energy 2 (fun i j => if i = j then 2 else (1 : ℚ)) (fun i => if i = 
     [0, 1] (by intro i hi; simp at hi; constructor <;> [omega; simp]) 1 .symmetric [0, 0] (by simp)
 
 end ordered
+
+/-! ## subspace correction, multigrid cycle, drivers, smoothing sets (proofs: Proofs/RelaxMG.lean)
+
+The multigrid statements are abstract: the level spaces are embedded in one module `V`, the
+operators `A_lv`, `P_lv`, `P_lvᵀ` are arbitrary linear maps related by the Galerkin and
+adjointness identities, the smoothers are arbitrary maps with the stated property.  The concrete
+smoothers of `local_mg_step` satisfy those hypotheses by `gs_sweep_energy_le` / `gs_fixed_point`
+(Gauss-Seidel on `lv_inds[lv]`) and `subspace_correction_energy_le` (`exact`). -/
+
+section
+variable {K V W : Type} [Field K] [NeZero (2 : K)] [AddCommGroup V] [Module K V]
+  [AddCommGroup W] [Module K W]
+
+/-- **Subspace correction and the energy.**  For a symmetric bilinear form `a`, a linear
+functional `ℓ` and `E(v) = ½ a(v,v) − ℓ(v)`:
+(i) `E(x + y) = E(x) + (a(x,y) − ℓ(y)) + ½ a(y,y)` for all `x, y`;
+(ii) if `c` solves the Galerkin equation of the subspace `range P` at the iterate `x`, i.e.
+`a(x + P c, P w) = ℓ(P w)` for all `w` (in matrices `PᵀAP c = Pᵀ(b − A x)`), then the
+correction lowers the energy by exactly `½ a(P c, P c)`.
+(`[NeZero (2 : K)]` is necessary: in characteristic 2, `½ = 0` and (i) fails; it is found
+automatically for `ℚ`, `ℝ` and every ordered field.) -/
+theorem subspace_correction_energy (a : V →ₗ[K] V →ₗ[K] K) (hs : ∀ u v, a u v = a v u)
+    (ℓ : V →ₗ[K] K) (P : W →ₗ[K] V) :
+    (∀ x y, energyForm a ℓ (x + y)
+        = energyForm a ℓ x + (a x y - ℓ y) + (1 / 2) * a y y) ∧
+    (∀ x c, (∀ w, a (x + P c) (P w) = ℓ (P w)) →
+        energyForm a ℓ (x + P c) = energyForm a ℓ x - (1 / 2) * a (P c) (P c)) :=
+  Pyiga.Relax.subspace_correction_energy a hs ℓ P
+
+end
+
+section
+variable {K V W : Type} [Field K] [LinearOrder K] [IsStrictOrderedRing K]
+  [AddCommGroup V] [Module K V] [AddCommGroup W] [Module K W]
+
+/-- **A Galerkin subspace correction never increases the energy** when `a` is symmetric
+positive semidefinite: if `a(x + P c, P w) = ℓ(P w)` for all `w` then
+`E(x + P c) ≤ E(x)`. -/
+theorem subspace_correction_energy_le (a : V →ₗ[K] V →ₗ[K] K) (hs : ∀ u v, a u v = a v u)
+    (hpos : ∀ v, 0 ≤ a v v) (ℓ : V →ₗ[K] K) (P : W →ₗ[K] V) (x : V) (c : W)
+    (hc : ∀ w, a (x + P c) (P w) = ℓ (P w)) :
+    energyForm a ℓ (x + P c) ≤ energyForm a ℓ x :=
+  Pyiga.Relax.subspace_correction_energy_le a hs hpos ℓ P x c hc
+
+end
+
+section
+variable {K V : Type} [Field K] [LinearOrder K] [IsStrictOrderedRing K]
+  [AddCommGroup V] [Module K V]
+
+/-- **Energy monotonicity of the multigrid V-cycle `local_mg_step`.**  With symmetric level
+operators related by the Galerkin condition `A_lv = Pᵀ A_{lv+1} P`, `PT` the adjoint of `P`
+w.r.t. the pairing `ip`, pre- and post-smoothers that do not increase the level energy
+`E_lv(x; f) = ½⟨A_lv x, x⟩ − ⟨f, x⟩` and a level-0 solver with `E_0(solve0 0 f; f) ≤ 0`:
+on every level the cycle started from `0` returns an iterate of non-positive energy, and on
+every level `≥ 1` one cycle does not increase the energy of any iterate. -/
+theorem mg_energy (ip : V →ₗ[K] V →ₗ[K] K) (A P PT : ℕ → (V →ₗ[K] V))
+    (pre post : ℕ → V → V → V) (solve0 : V → V → V)
+    (hsymA : ∀ lv x y, ip (A lv x) y = ip (A lv y) x)
+    (hgal : ∀ lv x, A lv x = PT lv (A (lv + 1) (P lv x)))
+    (hadj : ∀ lv r c, ip (PT lv r) c = ip r (P lv c))
+    (hpre : ∀ lv x f, levelEnergy ip A lv (pre lv x f) f ≤ levelEnergy ip A lv x f)
+    (hpost : ∀ lv x f, levelEnergy ip A lv (post lv x f) f ≤ levelEnergy ip A lv x f)
+    (h0 : ∀ f, levelEnergy ip A 0 (solve0 0 f) f ≤ 0) :
+    ∀ lv,
+      (∀ f, levelEnergy ip A lv (mgStep (fun l => ⇑(A l)) (fun l => ⇑(P l))
+          (fun l => ⇑(PT l)) pre post solve0 lv 0 f) f ≤ 0) ∧
+      (∀ x f, levelEnergy ip A (lv + 1) (mgStep (fun l => ⇑(A l)) (fun l => ⇑(P l))
+          (fun l => ⇑(PT l)) pre post solve0 (lv + 1) x f) f
+            ≤ levelEnergy ip A (lv + 1) x f) :=
+  Pyiga.Relax.mg_energy ip A P PT pre post solve0 hsymA hgal hadj hpre hpost h0
+
+end
+
+section
+variable {V : Type} [AddCommGroup V]
+
+/-- **Fixed point of `local_mg_step`.**  `Z lv r` reads "`r` vanishes on the non-Dirichlet
+dofs of level `lv`".  If the operators map `0` to `0`, restriction preserves `Z`, the
+smoothers leave an iterate with `Z`-residual alone and the level-0 solver returns `0` for a
+`Z` right-hand side, then on every level the cycle started from `0` with a `Z` right-hand
+side returns `0`, and every iterate whose residual satisfies `Z` (in particular the exact
+discrete solution) is a fixed point of the cycle. -/
+theorem mg_fixed_point (A P PT : ℕ → V → V) (pre post : ℕ → V → V → V) (solve0 : V → V → V)
+    (Z : ℕ → V → Prop)
+    (hA0 : ∀ lv, A lv 0 = 0) (hP0 : ∀ lv, P lv 0 = 0)
+    (hZ : ∀ lv r, Z (lv + 1) r → Z lv (PT lv r))
+    (hpre : ∀ lv x f, Z lv (f - A lv x) → pre lv x f = x)
+    (hpost : ∀ lv x f, Z lv (f - A lv x) → post lv x f = x)
+    (hs0 : ∀ f, Z 0 f → solve0 0 f = 0) :
+    ∀ lv, (∀ f, Z lv f → mgStep A P PT pre post solve0 lv 0 f = 0) ∧
+      (∀ x f, Z (lv + 1) (f - A (lv + 1) x) →
+        mgStep A P PT pre post solve0 (lv + 1) x f = x) :=
+  Pyiga.Relax.mg_fixed_point A P PT pre post solve0 Z hA0 hP0 hZ hpre hpost hs0
+
+end
+
+section
+variable {V : Type}
+
+/-- **Exit conditions of `iterative_solve`.**  With `m = max maxiter 1` (the loop body runs
+at least once): if the driver reports `k` iterations then `1 ≤ k ≤ m`, the returned iterate
+is `step^k x0`, it is the first one that satisfies the convergence test; if it reports
+`np.inf` (`none`) then exactly `m` steps were made and none of the iterates
+`step^1 x0, …, step^m x0` satisfied the test. -/
+theorem driver_stop (step : V → V) (conv : V → Bool) (maxiter : ℕ) (x0 x : V) (r : Option ℕ)
+    (h : iterativeSolve step conv maxiter x0 = (x, r)) :
+    (∀ k, r = some k → 1 ≤ k ∧ k ≤ max maxiter 1 ∧ x = step^[k] x0 ∧ conv x = true ∧
+        ∀ j, 1 ≤ j → j < k → conv (step^[j] x0) = false) ∧
+    (r = none → x = step^[max maxiter 1] x0 ∧
+        ∀ j, 1 ≤ j → j ≤ max maxiter 1 → conv (step^[j] x0) = false) :=
+  Pyiga.Relax.driver_stop step conv maxiter x0 x r h
+
+end
+
+section
+variable {V : Type}
+
+/-- **Exit conditions of `twogrid`.**  The driver never runs out of (model) fuel; it returns
+after `k` rounds with `1 ≤ k ≤ maxiter + 1`, the result is the iterate after `k` full rounds
+(the correction is applied in the last round too); `converged` means the smoothed iterate
+of the last round passed the `small` test, `diverged` that it failed `small` and passed
+`large`, `tooMany` that `k = maxiter + 1`; in all earlier rounds no exit test fired. -/
+theorem twogrid_stop (smooth corr : V → V) (small large : V → Bool) (s maxiter : ℕ)
+    (u0 u : V) (k : ℕ) (e : TGExit)
+    (h : twogrid smooth corr small large s maxiter u0 = (u, k, e)) :
+    e ≠ .outOfFuel ∧ 1 ≤ k ∧ k ≤ maxiter + 1 ∧ u = tgRound smooth corr s k u0 ∧
+    (e = .converged → small (iter smooth s (tgRound smooth corr s (k - 1) u0)) = true) ∧
+    (e = .diverged → small (iter smooth s (tgRound smooth corr s (k - 1) u0)) = false ∧
+      large (iter smooth s (tgRound smooth corr s (k - 1) u0)) = true) ∧
+    (e = .tooMany → k = maxiter + 1) ∧
+    (∀ j, j + 1 < k → tgJudge small large maxiter
+      (iter smooth s (tgRound smooth corr s j u0)) (j + 1) = none) :=
+  Pyiga.Relax.twogrid_stop smooth corr small large s maxiter u0 u k e h
+
+end
+
+section
+variable {ι : Type} [DecidableEq ι]
+
+/-- **Smoothing sets.**  For every smoothing strategy (`new`, `trunc`, `func_supp`,
+`cell_supp`, any disparity): the set used on level `lv` for level `lv` itself contains every
+new (active or deactivated) dof of that level that is not a Dirichlet dof, and no set
+contains a Dirichlet dof. -/
+theorem smoothing_sets (useExtra : Bool) (disparity : Option ℕ) (act deact : ℕ → List ι)
+    (dir extra : ℕ → ℕ → List ι) (lv : ℕ) :
+    (∀ e, (e ∈ act lv ∨ e ∈ deact lv) → e ∉ dir lv lv →
+      e ∈ smoothIndices useExtra disparity act deact dir extra lv lv) ∧
+    (∀ i e, e ∈ smoothIndices useExtra disparity act deact dir extra lv i → e ∉ dir lv i) :=
+  Pyiga.Relax.smoothing_sets useExtra disparity act deact dir extra lv
+
+end
 
 end Pyiga.Props.C11
